@@ -18,7 +18,7 @@ SEQ := c02_btree c16_ring c17_lru_splay
 TLX_c10_pool := thread_pool
 TLX_c11_sync :=
 TLX_c12_cptr :=
-TLX_c06_pmsort := die_core
+TLX_c06_pmsort := algorithm_parallel_multiway_merge die_core
 TLX_c07_pmerge := algorithm_parallel_multiway_merge die_core
 TLX_c04_ps5 := thread_pool multi_timer logger_core die_core timestamp
 TLX_c02_btree := die_core
